@@ -670,7 +670,11 @@ SPECS["C12"] = dict(
 # ------------------------------------------------------------------------------------------------
 # C15: Davidson solver building blocks
 def c15_jobs(tier):
-    return [dict(harness="c15_davidson", pattern=r".", label="RitzPairs / SearchSpace / correction / initial space", deadline=250)]
+    q = [dict(harness="c15_davidson", pattern=r"^(?!compute2/|extend-basis/n4)", label="RitzPairs / SearchSpace / correction / initial space / orthogonalisation / extend_basis / one pass of compute()", deadline=250)]
+    if tier == "quick":
+        return q
+    return q + [dict(harness="c15_davidson", pattern=r"^compute2/n3/LargestAlge/numeric-diagonal$|^extend-basis/n4", label="two passes of the public compute() (correction, extend_basis, incremental cache, second small problem); extend_basis n=4 [budgeted]",
+                     deadline=900, cap=(20, 150), budget=True)]
 
 
 SPECS["C15"] = dict(
@@ -682,13 +686,17 @@ SPECS["C15"] = dict(
                  "per-root flags accordingly - so Successful implies true residuals below tol; (4) the diagonal-preconditioned correction satisfies corr*(theta - a_ii) = residue, and its division is a "
                  "definedness obligation: theta == a_ii is possible - the known finding K-C15-1 (0/0 -> NaN, concrete replay replay/c15_davidson_nan.cpp), reported as KNOWN-FINDING; (5) the initial search space "
                  "consists of distinct unit vectors at the rule's top positions of the diagonal; (6) one pass of the real public compute(selection, maxit = 1, tol) with a symbolic tol: whenever info() is "
-                 "Successful, compute() returns nev and every returned pair has ||A x - theta x|| below the CALLER's tol."),
+                 "Successful, compute() returns nev and every returned pair has ||A x - theta x|| below the CALLER's tol; (7) the orthogonalisation helpers the outer loop uses: subspace_orthogonalisation "
+                 "(right block becomes (I - LL')R, left block untouched), MGS / GS with a given first column, and SearchSpace::extend_basis (append + twice-is-enough Jens-Wehner with Eigen's HouseholderQR "
+                 "replaced by its contract): old basis vectors untouched, new ones orthonormal and orthogonal to the old ones; (8) thorough tier: TWO passes of the public compute() - real correction vector, real "
+                 "extend_basis, product with A formed for the new basis vector only, second small eigen-problem - Successful still means true residuals of the user's matrix below the caller's tol."),
     functions=["RitzPairs<S>::compute_eigen_pairs, sort, check_convergence", "SearchSpace<S>::initialize_search_space, update_operator_basis_product, restart", "DavidsonSymEigsSolver<Op>::calculate_correction_vector, "
                "setup_initial_search_space, constructor", "argsort"],
-    stubs=["K6 Eigen::SelfAdjointEigenSolver<Matrix<S>>: fresh ascending eigenvalues d and vectors Z with S Z = Z D (Eigen, not Spectra: assumed)"],
-    bounds={"n": "3, 4", "search space size": "1..3", "nev": "1, 2"},
-    outside=["more than one pass of the iteration loop of JDSymEigsBase::compute_with_guess, extend_basis / twice_is_enough_orthogonalisation (QR-based, not encoded)", "unit norm / orthonormality of the returned vectors "
-             "(needs Z'Z = I and the orthogonalisation)", "user-supplied non-orthonormal initial spaces", ROUNDING],
+    stubs=["K6 Eigen::SelfAdjointEigenSolver<Matrix<S>>: fresh ascending eigenvalues d and vectors Z with S Z = Z D (Eigen, not Spectra: assumed)",
+           "K7 Eigen::HouseholderQR<Ref<Matrix<S>>>: fresh orthogonal Q with M = Q[:, :c] R, R upper triangular with non-zero diagonal (Eigen, not Spectra: assumed; needs M of full column rank)"],
+    bounds={"n": "3, 4", "search space size": "1..3", "nev": "1, 2", "passes of compute()": "1 (quick), 2 (thorough, n=3, numeric diagonal)"},
+    outside=["more than two passes of the iteration loop of JDSymEigsBase::compute_with_guess; the restart branch inside the loop (SearchSpace::restart itself is decided)", "unit norm / orthonormality of the returned vectors "
+             "(needs Z'Z = I of the dense eigen-solver together with the decided orthonormality of the basis)", "user-supplied non-orthonormal initial spaces", ROUNDING],
     assumptions=["exact real arithmetic", "cache invariant established by the real update_operator_basis_product (checked)"],
     policy=dict(events="violation", allow_cut=False),
     technique="symbolic execution of the real RitzPairs / SearchSpace / correction code from an arbitrary valid search space with a contract stub for the dense eigen-solver; z3 proves residual and cache identities",
